@@ -85,3 +85,22 @@ def native_clause(src):
             return n
     tree = T().visit(ast.parse(src, mode="eval"))
     return ast.unparse(ast.fix_missing_locations(tree))
+
+
+def native_crosscheck(name, code, bound, timeout=600):
+    """thorough tier: a module's boundary-case harness run on the real code of the *unchanged* tree, reported as a bounded
+    obligation (never counted as proved).  It cross-checks the verifier's model against CPython: a harness that finds a
+    failing case on a tree whose obligations are all discharged means the model or a contract is wrong, or the property
+    is violated outside what the contracts state -- either way the check must not stay green."""
+    import time
+    t0 = time.time()
+    out = run_py(code, timeout=timeout)
+    if not isinstance(out, dict) or "bad" not in out:
+        return {"name": name, "kind": "bounded", "bounded": True, "status": "unknown", "backend": "native run on the real code",
+                "time": round(time.time() - t0, 2), "bound": bound, "cases": None, "reason": "harness error: %s" % str(out)[:300],
+                "info": {}}
+    bad = out.get("bad") or []
+    return {"name": name, "kind": "bounded", "bounded": True, "status": "refuted" if bad else "proved",
+            "backend": "native run on the real code", "time": round(time.time() - t0, 2), "bound": bound,
+            "cases": out.get("cases"), "info": {"detail": str(bad)[:600]},
+            "replay": {"reproduced": bool(bad), "cases": bad[:4], "detail": "found by the native cross-check"}}
